@@ -215,7 +215,9 @@ example : (runText "2 +").render = "err parse:3" := by decide +kernel
 set_option maxRecDepth 100000 in
 example : (runText "{1, 2} ? 3").render = "err lex:UnknownTokenError:7" := by decide +kernel
 set_option maxRecDepth 100000 in
-example : (runText "#2020-01-01# + 1").render = "unmodelled instant" := by decide +kernel
+example : (runText "#2020-01-31# + 1").render = "ok 2020-02-01T00:00:00\n" := by decide +kernel
+set_option maxRecDepth 100000 in
+example : (match runText "now()" with | .unmodelled _ => true | _ => false) = true := by decide +kernel
 set_option maxRecDepth 100000 in
 example : ((runSession initialEnv false ["x = 1; 1/0", "x + 1"]).map (·.render)) = ["err divzero", "ok 2\n"] := by decide +kernel
 
